@@ -452,6 +452,28 @@ def _layout_of(tl):
     return {"nodes": nodes, "ticks": ticks, "domain": dom, "range": rng}
 
 
+def _axis11(tl, out):
+    """what harness/props/c11.py observes of the axis stage (same fields, same formats)"""
+    sc = tl.options["scale"]
+    dom = sc.domain()
+    a = {"today": out["today"], "range": [float(x) for x in sc.range()], "dir": tl.direction,
+         "order": [n.data.data.get("key") for n in tl.nodes]}
+    if dom and isinstance(dom[0], datetime.datetime):
+        a["domain"] = [((d - EPOCH) // datetime.timedelta(microseconds=1)) for d in (dom[0], dom[-1])]
+    else:
+        a["domain"] = [float(dom[0]).hex(), float(dom[-1]).hex()]
+    if "svg" in out:
+        s = out["svg"]
+        a["dots"] = [float(c["cx"] if c["cx"] is not None else c["cy"]).hex() for c in s["dots"]]
+        a["ticks"] = [[float(t["tr"][0]).hex(), float(t["tr"][1]).hex()] for t in (s["ticks"] or [])]
+        a["tick_texts"] = [t["text"] for t in (s["ticks"] or [])]
+        a["nticks"] = len(s["ticks"] or [])
+        a["nboxes"] = len(s["labels"])
+    if "tikz" in out:
+        a["tex_tick_texts"] = [t["text"] for t in (out["tikz"]["ticks"] or [])]
+    return a
+
+
 def impl(py):
     from labella.timeline import TimelineSVG, TimelineTex
     d1, o1 = build_inputs(py)
@@ -471,6 +493,9 @@ def impl(py):
         out["tikz"] = parse_tikz(tex)
     except ParseError as e:
         out["tikz_error"] = str(e)
+    if py.get("pipeline"):
+        out["today"] = list(datetime.date.today().timetuple()[:3])
+        out["axis11"] = _axis11(tls, out)
     if py.get("raw"):
         out["svg_raw"] = svg.decode()
         out["tikz_raw"] = tex
@@ -487,8 +512,8 @@ def enc_text(s):
     return [len(s)] + [ord(c) for c in s]
 
 
-def scene_ints(py, lay):
-    """Flat integer encoding of the scene (see coq/Extract/ApiRender.v)."""
+def opts_ints(py):
+    """ApiRender.d_opts: dir, sizes, margins, layerGap, padding, dotRadius, flags, colour options"""
     o = effective(py)
     a = [DIRS.index(o["direction"])]
     a += q(o["initialWidth"]) + q(o["initialHeight"])
@@ -509,6 +534,22 @@ def scene_ints(py, lay):
                 a += enc_text(c)
         else:
             a += [2]
+    return a
+
+
+def fcols_ints(py, d):
+    o = effective(py)
+    a = [5]
+    for r in ROLES:
+        spec = o["colors"][r]
+        a += enc_text(spec[1][d.get("cidx", 0) % len(spec[1])]) if spec[0] == "f" else [0]
+    return a
+
+
+def scene_ints(py, lay):
+    """Flat integer encoding of the scene (see coq/Extract/ApiRender.v)."""
+    o = effective(py)
+    a = opts_ints(py)
     a += [len(lay["ticks"])]
     for pos, text in lay["ticks"]:
         a += q(pos) + enc_text(text)
@@ -816,6 +857,13 @@ def dec_svg(ints):
     D = _Dec(ints)
     if D.z() != 1:
         raise ValueError("model rejected the input")
+    out = dec_svg_body(D)
+    if D.k != len(ints):
+        raise ValueError("trailing model output")
+    return out
+
+
+def dec_svg_body(D):
     out = {"width": D.num(), "height": D.num(), "margin": D.np(), "main": D.np()}
     out["axis"] = {"x2": D.opt(D.num), "y2": D.opt(D.num)}
 
@@ -842,8 +890,6 @@ def dec_svg(ints):
     def dot():
         return {"r": D.num(), "fill": D.opt(D.text), "cx": D.opt(D.num), "cy": D.opt(D.num)}
     out["dots"] = D.lst(dot)
-    if D.k != len(ints):
-        raise ValueError("trailing model output")
     return out
 
 
@@ -851,6 +897,13 @@ def dec_tikz(ints):
     D = _Dec(ints)
     if D.z() != 1:
         raise ValueError("model rejected the input")
+    out = dec_tikz_body(D)
+    if D.k != len(ints):
+        raise ValueError("trailing model output")
+    return out
+
+
+def dec_tikz_body(D):
     out = {"border": [D.num(), D.num(), D.num(), D.num()]}
     out["colors"] = D.lst(lambda: D.cname() + [D.text()])
     out["texts"] = D.lst(lambda: [D.text(), D.text()])
@@ -874,8 +927,6 @@ def dec_tikz(ints):
                 "textcol": D.cname(), "text": D.opt(D.text)}
     out["labels"] = D.lst(label)
     out["dots"] = D.lst(lambda: {"size": D.num(), "fill": D.cname(), "at": D.np()})
-    if D.k != len(ints):
-        raise ValueError("trailing model output")
     return out
 
 
@@ -891,7 +942,7 @@ def dec_layout(ints):
 
 # ------------------------------------------------------------- comparison ---
 class Amb(Exception):
-    pass
+    pass          # args[0], if any: the ambiguity class
 
 
 INT_RX = re.compile(r"-?\d+")
@@ -921,6 +972,13 @@ def float_exact(py):
 
 
 EXACT = [True]     # set per case by compare()
+# Whole-pipeline family only: the model computes scale(time) exactly, the code in
+# doubles, so every value derived from an axis position (dots, ticks, path
+# coordinates) is compared to the printed precision plus this absolute tolerance
+# (1e-9 x axis length, plus the conditioning of a linear domain whose magnitude
+# dwarfs its span, as in c11.py), and a %i truncation of such a value may fall on
+# either side of an integer the exact value sits on.  None = not in pipeline mode.
+PIPE = [None]
 
 
 def cmp_num(m, tok, where):
@@ -945,6 +1003,10 @@ def cmp_num(m, tok, where):
         near = abs(raw - round(raw))
         if (not EXACT[0]) and near < Fraction(1, 10 ** 7) and abs(int(tok) - raw) < 1 + Fraction(1, 10 ** 7):
             raise Amb()
+        if PIPE[0] is not None and "tick" in where:
+            band = Fraction(1, 10 ** 7) + Fraction(PIPE[0])
+            if near < band and abs(int(tok) - raw) < 1 + band:
+                raise Amb("trunc-band")
         return "%s: printed %s, model trunc(%s) = %d" % (where, tok, float(raw), m[1])
     dec = {"F6": 6, "F8": 8, "F16": 16}.get(kind)
     if dec is not None:
@@ -955,6 +1017,10 @@ def cmp_num(m, tok, where):
             return None                             # digit for digit what the model prints
         # "%f"/"%.16f" print a double the model received exactly (scale values);
         # "%.8f" prints path coordinates, exact in doubles when all sizes are dyadic
+        if PIPE[0] is not None:
+            if close(m[1], Fraction(tok), Fraction(1, 2 * 10 ** dec) + Fraction(PIPE[0])):
+                return None
+            return "%s: printed %s, model %s" % (where, tok, float(m[1]))
         if kind in ("F6", "F16") or EXACT[0]:
             return "%s: printed %s, model prints %d units of 1e-%d (value %s)" % (where, tok, m[2], dec, float(m[1]))
         if close(m[1], Fraction(tok), Fraction(1, 2 * 10 ** dec)):
@@ -963,7 +1029,7 @@ def cmp_num(m, tok, where):
     # Fs: str() of a Python number
     if not re.fullmatch(NUM, tok):
         return "%s: %r is not a number" % (where, tok)
-    if close(m[1], Fraction(tok), Fraction(1, 10 ** 12)):
+    if close(m[1], Fraction(tok), Fraction(1, 10 ** 12) + (Fraction(PIPE[0]) if PIPE[0] is not None else 0)):
         return None
     return "%s: printed %s, model %s" % (where, tok, float(m[1]))
 
@@ -1135,6 +1201,8 @@ def compare_tikz(m, t, textex):
 def compare(case, io, mo):
     """The K5 tie: both documents and the layout quantities, model vs implementation."""
     from harness import core
+    if case["py"].get("pipeline") and isinstance(io, dict) and "exc" in io:
+        return compare_pipeline(case, io, mo)
     if not isinstance(io, dict) or "exc" in io:
         return "implementation raised %s" % (io.get("exc") if isinstance(io, dict) else io)
     if "error" in case.get("pre", {}):
@@ -1143,6 +1211,8 @@ def compare(case, io, mo):
         return "SVG export has an unexpected shape: " + io["svg_error"]
     if "tikz_error" in io:
         return "TikZ export has an unexpected shape: " + io["tikz_error"]
+    if case["py"].get("pipeline"):
+        return compare_pipeline(case, io, mo)
     lay = io["layout"]
     if not layout_usable(lay):
         return "layout positions are not integers"
@@ -1771,3 +1841,367 @@ def oracle_c09(case, io):
         if r:
             return r
     return None
+
+
+# ============================================================================
+# The whole-pipeline family `pipeline:*` (command 850, coq/Render/Pipeline.v):
+# the model gets the RAW input only (times, widths, texts, options, engine
+# options, today) and must produce both documents; they are compared with the
+# parsed real exports by the same field-by-field comparison as above.
+# No pre-pass: nothing is taken from the implementation.
+#
+# A disagreement is counted as ambiguous (never silently, per class, see
+# AMB_CLASSES) only when it is one of the documented double-versus-exact effects:
+#   trunc-band        a tick position whose exact value is an integer (within the
+#                     tolerance of the axis stage) printed by %i on the other side
+#   density-product   density * layerWidth is inexact in doubles; the model re-run
+#                     with the density that reproduces the code's product agrees
+#   capacity-band     the distributor compares accumulated double sums of widths with
+#                     density * layerWidth; the exact sum equals the capacity (within a
+#                     relative 1e-12) and the doubles compare the other way: the model
+#                     re-run with the density moved by 1e-12 either way agrees
+#   axis-alternative  nice()/ticks() took one of the enumerated alternatives of
+#                     c11.py / c14lin.py / c16.py (a decision within rounding of a
+#                     tie), and the model re-run downstream of the implementation's
+#                     axis values (command 851) agrees exactly
+#   rounding-band     the axis values agree to 1e-9, an exact solver position sits
+#                     within 1e-7 of a .5 rounding boundary, and 851 agrees exactly
+#   ideal-perturbation  as the previous but without a position in the band (a
+#                     discrete engine decision flipped by the 1e-13 perturbation of
+#                     the ideal positions, e.g. touching ideal intervals); 851 agrees
+# ============================================================================
+import collections
+
+AMB_CLASSES = collections.Counter()
+PIPE_STATS = collections.Counter()
+
+
+def _tval_ints(t):
+    if isinstance(t, list):
+        if t[0] == "d":
+            return [1] + [int(x) for x in t[1:4]]
+        if t[0] == "dt":
+            v = datetime.datetime(*t[1:])
+            return [2, (v - EPOCH) // datetime.timedelta(microseconds=1)]
+        if t[0] == "t":
+            return [3] + [int(x) for x in t[1:5]] + [0] * (5 - len(t))
+        raise ValueError(t)
+    return [0] + q(float(t))
+
+
+def _py11_time(t):
+    """the time spec in the format of harness/tl_common.py / c11.py"""
+    if isinstance(t, list):
+        if t[0] == "d":
+            return "D:" + datetime.date(*t[1:]).isoformat()
+        if t[0] == "dt":
+            return "T:" + datetime.datetime(*t[1:]).isoformat()
+        return "C:" + datetime.time(*t[1:]).isoformat()
+    return t
+
+
+def py11_of(py):
+    """the axis part of a case in c11.py's format (for its model call and its compare)"""
+    o = None
+    if not py.get("noopts"):
+        o = {k: v for k, v in py["opts"].items() if k in ("direction", "initialWidth", "initialHeight", "showTicks", "margin")}
+        if py.get("domain") is not None:
+            o["domain"] = [_py11_time(x) for x in py["domain"]]
+    data = [{"time": _py11_time(d["t"]), "width": d["width"], "_id": k} for k, d in enumerate(py["data"])]
+    return {"data": data, "opts": o, "scale": py["scale"]}
+
+
+def density_alt(py):
+    """the engine options with the density that makes the exact product density * layerWidth
+    equal the code's double product (None if the product is exact)"""
+    lab = labella_opts(py)
+    eff = dict(FORCE_DEFAULTS)
+    eff.update(lab)
+    mn, mx, d = eff["minPos"], eff["maxPos"], eff["density"]
+    if mn is not None and mx is not None and (mx - mn):
+        lw = mx - mn
+        prod = d * lw
+        if Fraction(prod) != Fraction(d) * Fraction(lw):
+            lab2 = dict(lab)
+            lab2["density"] = Fraction(prod) / Fraction(lw)
+            return lab2
+    return None
+
+
+def capacity_alts(py):
+    """the engine options with the density moved by a relative 1e-12 either way: the
+    distributor compares accumulated double sums of widths with density * layerWidth;
+    where the exact sum EQUALS the capacity (or misses it by less than 1e-12) the
+    doubles may compare the other way.  [] without bounds (no capacity)."""
+    lab = labella_opts(py)
+    eff = dict(FORCE_DEFAULTS)
+    eff.update(lab)
+    mn, mx = eff["minPos"], eff["maxPos"]
+    if mn is None or mx is None or not (mx - mn):
+        return []
+    out = []
+    for sign in (-1, 1):
+        lab3 = dict(lab)
+        lab3["density"] = Fraction(eff["density"]) * (1 + sign * Fraction(1, 10 ** 12))
+        out.append(lab3)
+    return out
+
+
+def pipeline_call(py, today, lab=None):
+    """command 850 of coq/Extract/ApiPipeline.v"""
+    a = [850, 0 if py["scale"] == "linear" else 1] + [int(x) for x in today]
+    a += opts_ints(py)
+    a += _enc_force_update(labella_opts(py) if lab is None else lab)
+    dom = None if py.get("noopts") else py.get("domain")
+    a += [0] if not dom else [1] + _tval_ints(dom[0]) + _tval_ints(dom[1])
+    a += [len(py["data"])]
+    for d in py["data"]:
+        a += _tval_ints(d["t"]) + q(d["width"])
+        t = d.get("text")
+        a += [0] if t is None else [1] + enc_text(t)
+        a += fcols_ints(py, d)
+    return a
+
+
+def given_call(py, lay, lab=None):
+    """command 851: the axis stage as the implementation computed it (diagnostic)"""
+    ideals = {n["key"]: n["ideal"] for n in lay["nodes"]}
+    a = [851] + opts_ints(py) + _enc_force_update(labella_opts(py) if lab is None else lab)
+    tk = lay["ticks"] if effective(py)["showTicks"] else []
+    a += [len(tk)]
+    for pos, text in tk:
+        a += q(pos) + enc_text(text)
+    a += [len(py["data"])]
+    for k, d in enumerate(py["data"]):
+        a += q(ideals[k]) + q(d["width"])
+        t = d.get("text")
+        a += [0] if t is None else [1] + enc_text(t)
+        a += fcols_ints(py, d)
+    return a
+
+
+def pipeline_models(c, today=None):
+    """first-round model calls of a pipeline case, with their tags"""
+    from harness.props import c11
+    py = c["py"]
+    today = today or list(datetime.date.today().timetuple()[:3])
+    calls, tags = [pipeline_call(py, today)], ["p850"]
+    lab2 = density_alt(py)
+    if lab2 is not None:
+        calls.append(pipeline_call(py, today, lab2))
+        tags.append("p850d")
+    p11 = py11_of(py)
+    calls.append(c11.model_call(p11, today))
+    tags.append("a700")
+    for x in c11._extent_call(p11):
+        calls.append(x)
+        tags.append("a260")
+    c["model"], c["tags"], c["today"] = calls, tags, list(today)
+    return c
+
+
+def dec_pipeline(ints, given=False):
+    if ints is None:
+        return {"status": None}
+    if ints[0] != 1:
+        return {"status": ints[0], "kind": ints[1] if len(ints) > 1 else None}
+    D = _Dec(ints)
+    D.z()
+    out = {"status": 1, "svg": dec_svg_body(D), "tikz": dec_tikz_body(D), "dom": D.z()}
+    if not given:
+        def pval():
+            return D.q() if D.z() == 0 else D.z()
+        out["d0"], out["d1"] = pval(), pval()
+        out["dots"] = D.lst(D.q)
+    out["exact"] = D.lst(lambda: D.lst(D.q))
+    if D.k != len(ints):
+        raise ValueError("trailing model output")
+    return out
+
+
+def _pipe_tol(py, P):
+    """absolute tolerance of axis-derived values: (1e-9 + conditioning) x axis length"""
+    from harness.props import c11
+    o = effective(py)
+    side = o["direction"] in ("left", "right")
+    length = (o["initialHeight"] - o["margin"]["top"] - o["margin"]["bottom"]) if side else \
+             (o["initialWidth"] - o["margin"]["left"] - o["margin"]["right"])
+    cond = 0.0
+    if py["scale"] == "linear" and isinstance(P.get("d0"), Fraction):
+        cond = c11._cond(True, P["d0"], P["d1"])
+    return Fraction((1e-9 + cond) * abs(float(length)) + 1e-12)
+
+
+def _cmp_docs(case, io, P, pipe_tol):
+    """None | ("amb", cls) | ("diff", why): the model's two documents against the parsed exports"""
+    lay = io["layout"]
+    textex = {n["text"]: n["textex"] for n in lay["nodes"] if n["text"]}
+    EXACT[0] = float_exact(case["py"])
+    PIPE[0] = pipe_tol
+    try:
+        r = compare_svg(P["svg"], io["svg"]) or compare_tikz(P["tikz"], io["tikz"], textex)
+    except Amb as e:
+        return ("amb", e.args[0] if e.args else "trunc-band")
+    finally:
+        PIPE[0] = None
+    return None if r is None else ("diff", r)
+
+
+def _axis_verdict(case, io, mo):
+    """c11.py's own comparison of the axis stage: "ok" | "amb" | reason"""
+    from harness import core
+    from harness.props import c11
+    tags = case["tags"]
+    m11 = [mo[tags.index(t)] for t in ("a700", "a260", "a232") if t in tags]
+    calls11 = [case["model"][tags.index(t)] for t in ("a700", "a260", "a232") if t in tags]
+    try:
+        r = c11.compare({"py": py11_of(case["py"]), "model": calls11}, io["axis11"], m11)
+    except core.Ambiguous:
+        return "amb"
+    return "ok" if r is None else r
+
+
+def prepare_pipeline(cases, impl_out, model_out, workdir):
+    """second round of model calls for pipeline cases whose first comparison is not clean:
+    the band alternatives of linear ticks (232), the given-axis re-run (851, and with the
+    density alternative), and a rebuilt call when `today` moved (bare time-of-day data)."""
+    from harness import core
+    extra = []
+    for i, (c, io, mo) in enumerate(zip(cases, impl_out, model_out)):
+        if not c["py"].get("pipeline") or not isinstance(io, dict) or "exc" in io or "tags" not in c:
+            continue
+        if "svg" not in io or "tikz" not in io or not mo or mo[0] is None:
+            continue
+        if any(isinstance(d["t"], list) and d["t"][0] == "t" for d in c["py"]["data"]) and list(io.get("today", [])) != c["today"]:
+            c2 = pipeline_models({"py": c["py"]}, list(io["today"]))
+            extra.append((i, "rebuild", c2["model"], c2["tags"]))
+            continue
+        try:
+            P = dec_pipeline(mo[0])
+        except (ValueError, IndexError):
+            continue
+        if P["status"] != 1:
+            continue
+        if _cmp_docs(c, io, P, _pipe_tol(c["py"], P)) is None:
+            continue
+        calls, tags = [], []
+        if c["py"]["scale"] == "linear" and isinstance(P["d0"], Fraction):
+            calls.append([232, P["d0"].numerator, P["d0"].denominator, P["d1"].numerator, P["d1"].denominator, 10])
+            tags.append("a232")
+        for sfx, lab3 in zip(("-", "+"), capacity_alts(c["py"])):
+            calls.append(pipeline_call(c["py"], c["today"], lab3))
+            tags.append("p850c" + sfx)
+        if layout_usable(io["layout"]) and sorted(n["key"] for n in io["layout"]["nodes"]) == list(range(len(c["py"]["data"]))):
+            calls.append(given_call(c["py"], io["layout"]))
+            tags.append("g851")
+            lab2 = density_alt(c["py"])
+            if lab2 is not None:
+                calls.append(given_call(c["py"], io["layout"], lab2))
+                tags.append("g851d")
+            for sfx, lab3 in zip(("-", "+"), capacity_alts(c["py"])):
+                calls.append(given_call(c["py"], io["layout"], lab3))
+                tags.append("g851c" + sfx)
+        if calls:
+            extra.append((i, "more", calls, tags))
+    if not extra:
+        return
+    res = core.run_model([{"model": calls} for _, _, calls, _ in extra], os.path.join(workdir, "round2"))
+    for (i, what, calls, tags), r in zip(extra, res):
+        if what == "rebuild":
+            cases[i]["model"], cases[i]["tags"] = calls, tags
+            model_out[i] = r
+        else:
+            cases[i]["model"] = cases[i]["model"] + calls
+            cases[i]["tags"] = cases[i]["tags"] + tags
+            model_out[i] = model_out[i] + r
+
+
+def _in_rounding_band(P):
+    import math
+    for layer in P.get("exact", []):
+        for x in layer:
+            if abs((x - math.floor(x)) - Fraction(1, 2)) <= ROUND_BAND:
+                return True
+    return False
+
+
+def compare_pipeline(case, io, mo):
+    from harness import core
+    PIPE_STATS["cases"] += 1
+    tags = case.get("tags") or []
+    get = lambda t: mo[tags.index(t)] if t in tags and tags.index(t) < len(mo) else None
+    try:
+        P = dec_pipeline(get("p850"))
+    except (ValueError, IndexError) as e:
+        return "model output undecodable: %s" % e
+    if P["status"] is None or P["status"] == -999:
+        return "model rejected the input"
+    if isinstance(io, dict) and "exc" in io:
+        if P["status"] == 0:
+            PIPE_STATS["both raise"] += 1
+            return None
+        return "implementation raised %s (%s), the model returns documents" % (io["exc"], io.get("msg", ""))
+    if P["status"] != 1:
+        return "the model %s, the implementation returns documents" % (
+            "raises (kind %s)" % P["kind"] if P["status"] == 0 else "runs out of fuel")
+    if json.dumps(io["layout"], sort_keys=True) != json.dumps(io["layout_tex"], sort_keys=True):
+        return "TimelineSVG and TimelineTex computed different layouts from identical inputs"
+    if P["dom"] != 1:
+        return "model says the labels/engine options are outside the documented domain"
+    tol = _pipe_tol(case["py"], P)
+    r = _cmp_docs(case, io, P, tol)
+    if r is None:
+        PIPE_STATS["agree outright"] += 1
+        return None
+
+    def amb(cls):
+        AMB_CLASSES[cls] += 1
+        raise core.Ambiguous()
+    if r[0] == "amb":
+        amb(r[1])
+    # density * layerWidth
+    Pd = get("p850d")
+    if Pd is not None:
+        r2 = _cmp_docs(case, io, dec_pipeline(Pd), tol)
+        if r2 is None or r2[0] == "amb":
+            amb("density-product")
+    # the distributor's capacity comparisons on accumulated double sums
+    for t in ("p850c-", "p850c+"):
+        Pc = get(t)
+        if Pc is not None:
+            r2 = _cmp_docs(case, io, dec_pipeline(Pc), tol)
+            if r2 is None or r2[0] == "amb":
+                amb("capacity-band")
+    # the axis stage on its own, by c11.py's comparison (tolerances and enumerated alternatives)
+    av = _axis_verdict(case, io, mo)
+    if av not in ("ok", "amb"):
+        return "%s  [axis stage: %s]" % (r[1], av)
+    # downstream of the implementation's axis values the model must agree exactly
+    for t in ("g851", "g851d", "g851c-", "g851c+"):
+        G = get(t)
+        if G is None:
+            continue
+        r3 = _cmp_docs(case, io, dec_pipeline(G, given=True), None)
+        if r3 is None or r3[0] == "amb":
+            if av == "amb":
+                amb("axis-alternative")
+            if t == "g851d":
+                amb("density-product")
+            if t.startswith("g851c"):
+                amb("capacity-band")
+            amb("rounding-band" if _in_rounding_band(P) else "ideal-perturbation")
+    return r[1]
+
+
+def pipeline_cases(rng, n, **kw):
+    cases = []
+    for _ in range(n):
+        c = gen_case(rng, "random", **kw)
+        c["kind"] = "pipeline:" + c["kind"]
+        c["py"]["pipeline"] = True
+        cases.append(pipeline_models(c))
+    return cases
+
+
+def pipeline_evidence():
+    return {"pipeline_family": dict(PIPE_STATS), "pipeline_ambiguity_classes": dict(AMB_CLASSES)}
